@@ -427,6 +427,15 @@ func genC01(e *emitter, tier string, seed uint64) {
 		e.run("C01.txs", hex.EncodeToString(lst))
 		e.note("stream")
 	}
+	// long counted lists of minimal transactions (count prefixes of three bytes; any internal cap on the count shows)
+	for _, cnt := range []int{253, 4096, 4097, 5000} {
+		lst := bt.VarInt(uint64(cnt)).Bytes()
+		for j := 0; j < cnt; j++ {
+			lst = append(lst, byte(j), byte(j>>8), 0, 0, 0, 0, byte(j), 0, 0, 0)
+		}
+		e.run("C01.txs", hex.EncodeToString(lst))
+		e.note("stream.long-list")
+	}
 	// random bytes
 	for k := 0; k < lim*5; k++ {
 		b := r.bytes(r.n(80))
